@@ -7,6 +7,11 @@ Two kinds of cases.
   translated update formulas (Gen/PrinzGen.v, one for builders.py and one for libmsm.pyx) produce when
   plugged into the loop skeleton of Model/Prinz.v and run over rationals (quotients and roots to
   2^-80).  Matrices with a zero row are the rejected stream (AssertionError <-> None).
+* "stop": the number N of sweeps the real functions execute before `abs(logl - oldlogl) > tol` fails is
+  measured by probing max_iter (the warning appears iff at least max_iter sweeps ran); the translated
+  pseudo log-likelihood terms and convergence test, plugged into `prinz_loop` of Model/Prinz.v and run over
+  rationals (ln to 2^-64), must stop after the same N sweeps (py: ln, pyx: log10), and the returned (T, pi)
+  must equal the N-sweep model to 1e-9.
 * "cert": builders.mle (dense and sparse containers), _prinz_mle_py and _prinz_mle (compiled) run to
   convergence; the returned T, pi are handed to Coq as exact rationals and the certificate checker
   of Model/Prinz.v evaluates stochasticity, detailed balance (1e-9) and the Prinz self-consistency
@@ -32,13 +37,16 @@ RULE = ("strongly connected count matrices, n = 1..7 (sweep cases n <= 5): rando
         "states have a single neighbour (with and without self-counts), 2-state matrices with empty diagonal (the a == 0 "
         "branch), counts that are small integers, multiples of 1/8, arbitrary doubles, or spread over 1..10^4; dense "
         "ndarray and csr/coo/lil containers for builders.mle; plus matrices with an all-zero row (rejected). "
-        "non-trivial := n >= 3, not symmetric, a model was returned and at least one sweep changed X")
-TRUSTED = ["translator/tr_prinz.py (array-element renaming, loop-shape recognition; logl accumulation and the convergence test are recognised and left out)",
-           "modelled not verified: IEEE rounding (comparison at 1e-9 / 1e-6), numpy sum/division broadcasting, scipy sparse <-> dense conversion, the stopping rule on the pseudo log-likelihood",
+        "stop cases: n = 2..4, the sweep count of both real functions measured by probing max_iter. "
+        "non-trivial := n >= 3, not symmetric, a model was returned and at least one sweep changed X (stop cases: at least 2 sweeps)")
+TRUSTED = ["translator/tr_prinz.py (array-element renaming, loop-shape recognition; the logl terms and the convergence test are translated, `logl = 0` / `oldlogl = logl` / `break` / the warning condition n_iter == max_iter - 1 are recognised as the shape prinz_loop implements; np.log -> klog, C log10 -> klog10 = ln/ln 10)",
+           "modelled not verified: IEEE rounding (comparison at 1e-9 / 1e-6), numpy sum/division broadcasting, scipy sparse <-> dense conversion; the stopping rule is modelled (prinz_loop) and compared on stop cases whose iteration needs <= 30 sweeps, the executable ln on Q is a 2^-64 approximation (Model/Prinz.v qlog, not proved)",
            "the executable Q instance of the model rounds quotients and square roots down to multiples of 2^-80 (sums, differences, products exact)"]
 ASSUMPTIONS = ["count matrices are non-negative with a strongly connected transition graph (after ergodic trimming); "
-               "theorems are about exact real arithmetic; convergence of the iteration and global optimality are NOT proved "
-               "(observed per input: likelihood >= transpose estimate and >= sampled reversible competitors)"]
+               "theorems are about exact real arithmetic; convergence of the iteration and global optimality for n >= 3 are NOT proved "
+               "(proved: Prinz equations at every state a sweep leaves unchanged, vanishing partial derivatives and strict "
+               "coordinate-wise maximality of the full log-likelihood there, global optimality for two states; "
+               "observed per input: likelihood >= transpose estimate and >= sampled reversible competitors)"]
 SHARD = 20
 P = 80
 TOL_SWEEP = F(1, 10 ** 9)
@@ -170,6 +178,13 @@ def generate(rng, tier):
             M[i] = [F(0)] * n
             shape = "zero-row"
         cases.append({"kind": "sweep", "C": _enc(M), "k": rng.choice([1, 1, 2, 3]), "shape": shape, "style": style})
+    n_stop = 14 if quick else 120
+    for t in range(n_stop):
+        shape = SHAPES[t % len(SHAPES)]
+        style = rng.choice(["int", "int", "eighth", "float"])
+        n = rng.choice([2, 3, 3, 4])
+        M = _matrix(rng, n, shape, style)
+        cases.append({"kind": "stop", "C": _enc(M), "shape": shape, "style": style})
     n_cert = 260 if quick else 2600
     for t in range(n_cert):
         shape = SHAPES[t % len(SHAPES)] if rng.random() < 0.93 else "two-empty-diag"
@@ -215,9 +230,62 @@ def _array(c):
     return np.array([[float(x) for x in r] for r in M]), allint
 
 
+STOP_CAP = 30      # stop cases whose iteration needs more sweeps are only tagged (the Q model would be slow)
+STOP_P = 64
+
+
+def _warned(f, A, m):
+    from enspara import exception
+    with warnings.catch_warnings(record=True) as w:
+        warnings.simplefilter("always")
+        f(A.copy(), max_iter=m)
+    return any(issubclass(x.category, exception.ConvergenceWarning) for x in w)
+
+
+def _nsweeps(f, A):
+    """number of sweeps executed when max_iter does not bind = the largest m whose run still warns
+    (n_iter == max_iter - 1 also when the break happens in the last allowed pass); None above STOP_CAP"""
+    if not _warned(f, A, 1):
+        return 0
+    lo, hi = 1, 2
+    while _warned(f, A, hi):
+        lo, hi = hi, hi * 2
+        if lo > STOP_CAP:
+            return None
+    while hi - lo > 1:
+        mid = (lo + hi) // 2
+        if _warned(f, A, mid):
+            lo = mid
+        else:
+            hi = mid
+    return lo if lo <= STOP_CAP else None
+
+
+def _run_stop(c, A):
+    from enspara.msm import builders
+    r = {}
+    for impl, f in (("py", builders._prinz_mle_py), ("pyx", builders._prinz_mle)):
+        try:
+            N = _nsweeps(f, A)
+        except Exception as ex:
+            r[impl] = {"err": type(ex).__name__}
+            continue
+        if N is None:
+            r[impl] = {"N": None}
+            continue
+        a = _call(f, A.copy(), max_iter=N + 1)
+        b = _call(f, A.copy(), max_iter=N + 7)
+        a["N"] = N
+        a["stable"] = ("T" in a and "T" in b and a["T"] == b["T"] and a["pi"] == b["pi"] and not b["warn"])
+        r[impl] = a
+    return r
+
+
 def run_impl(c):
     from enspara.msm import builders
     A, allint = _array(c)
+    if c["kind"] == "stop":
+        return _run_stop(c, A)
     if c["kind"] == "sweep":
         return {"py": _call(builders._prinz_mle_py, A.copy(), max_iter=c["k"]),
                 "pyx": _call(builders._prinz_mle, A.copy(), max_iter=c["k"])}
@@ -267,6 +335,17 @@ def _sweep_tol(c):
 def coq_check(c, r):
     n = len(c["C"])
     Cm = _cmat(c["C"])
+    if c["kind"] == "stop":
+        parts = []
+        for impl, run, swp in (("py", "py_run_stop", "py_sweep"), ("pyx", "pyx_run_stop", "pyx_sweep")):
+            ri = r[impl]
+            if "err" in ri or ri.get("N") in (None, 0) or "T" not in ri:
+                continue
+            parts.append("stop_agrees (%s (QOps %d) (QLOps %d) %s (mat_fun %s)) %s %s" % (
+                run, STOP_P, STOP_P, cn(n), Cm, cq(F(1, 10 ** 10)), cn(ri["N"])))
+            parts.append("result_near %s (prinz_run (QOps %d) (%s (QOps %d)) %s (mat_fun %s) %s) %s" % (
+                cq(_sweep_tol(c)), P, swp, P, cn(n), Cm, cn(ri["N"]), _cres(ri)))
+        return " && ".join("(%s)" % p for p in parts) if parts else None
     if c["kind"] == "sweep":
         parts = []
         for impl, swp in (("py", "py_sweep"), ("pyx", "pyx_sweep")):
@@ -333,6 +412,19 @@ def oracle(c, r):
     out = []
     M = _dec(c["C"])
     n = len(M)
+    if c["kind"] == "stop":
+        for impl in ("py", "pyx"):
+            ri = r[impl]
+            if "err" in ri:
+                out.append(("terminates", "%s raised %s on strongly connected C=%s" % (impl, ri["err"], c["C"])))
+            elif ri.get("N") is not None and "T" in ri:
+                if ri["N"] < 1:
+                    out.append(("stop-rule", "%s: no sweep executed: C=%s" % (impl, c["C"])))
+                if ri["warn"] or not ri["stable"]:
+                    out.append(("stop-rule", "%s: with max_iter above the measured sweep count %d the run warned or its result "
+                                "depends on max_iter: C=%s" % (impl, ri["N"], c["C"])))
+                _cert(M, ri, out, impl)
+        return out
     rejected = any(sum(row) == 0 for row in M)
     for impl in ("mle", "py", "pyx"):
         if impl not in r:
@@ -401,6 +493,8 @@ def nontrivial(c, r):
     if n < 3 or all(M[i][j] == M[j][i] for i in range(n) for j in range(n)):
         return False
     ri = r.get("py", {})
+    if c["kind"] == "stop":
+        return "T" in ri and (ri.get("N") or 0) >= 2
     return "T" in ri
 
 
@@ -408,7 +502,17 @@ def tags(c, r):
     M = _dec(c["C"])
     n = len(M)
     t = [c["kind"], "%s-n%d" % (c["kind"], n), "%s-%s" % (c["kind"], c["shape"]), "%s-%s" % (c["kind"], c["style"])]
-    if c["kind"] == "sweep":
+    if c["kind"] == "stop":
+        for impl in ("py", "pyx"):
+            ri = r[impl]
+            if ri.get("N") is None:
+                t.append("stop-not-compared-%s" % impl)
+            else:
+                t.append("stop-compared-%s" % impl)
+                t.append("stop-%s-N%s" % (impl, "1-5" if ri["N"] <= 5 else "6-20" if ri["N"] <= 20 else "21-30"))
+        if r["py"].get("N") is not None and r["pyx"].get("N") is not None:
+            t.append("stop-py-pyx-same-count" if r["py"]["N"] == r["pyx"]["N"] else "stop-py-pyx-different-count")
+    elif c["kind"] == "sweep":
         t.append("sweep-k%d" % c["k"])
         for impl in ("py", "pyx"):
             ri = r[impl]
@@ -437,7 +541,7 @@ def tags(c, r):
 
 ESSENTIAL_TAGS = ["sweep-k1", "sweep-k2", "sweep-k3", "sweep-compared-py", "sweep-compared-pyx", "guard-rejected",
                   "cert-dense", "cert-sparse", "cert-converged-mle", "cert-converged-pyx", "leaf-state", "a-eq-0-branch",
-                  "self-counts", "one-way-pair", "cert-float", "cert-int"]
+                  "self-counts", "one-way-pair", "cert-float", "cert-int", "stop-compared-py", "stop-compared-pyx"]
 
 
 def search(rng, tier):
